@@ -98,3 +98,19 @@ M("c03.outer-status-hook_error-kept", "C03", MC, "        assert isinstance(stat
 M("c03.container-clear-status-after-run-removed", "C03", MOD, "        self.clear_status()  # -- ENFORCE: compute_status() after run.\n        if not self.run_items and not should_run_entity:",
   "        if not self.run_items and not should_run_entity:")
 M("c03.xpassed-also-failure", "C03", MC, "        return self is Status.failed\n", "        return self in (Status.failed, Status.xpassed)\n")
+
+# ---- C09 -------------------------------------------------------------------
+M("c09.effective-tags-no-parent", "C09", MC, "        if self.parent:\n            # -- INHERIT TAGS: From parent(s), recursively\n            inherited_tags = self.parent.effective_tags\n            tags.update(inherited_tags)\n        return tags\n\n    def should_run_with_tags",
+  "        return tags\n\n    def should_run_with_tags")
+M("c09.row-parent-none", "C09", MOD, "                            parent=scenario_template,\n", "                            parent=None,\n")
+M("c09.scenario-uses-own-tags", "C09", MC, "        return tag_expression.check(self.effective_tags)\n\n    @property\n    def status",
+  "        return tag_expression.check(self.tags)\n\n    @property\n    def status")
+M("c09.unselected-steps-left-untested", "C09", MOD, "                    #   * Step skipped remaining scenario.\n                    step.status = Status.skipped",
+  "                    #   * Step skipped remaining scenario.\n                    pass")
+M("c09.hooks-for-skipped-scenario", "C09", MOD, "        hooks_called = False\n        if not runner.config.dry_run and run_scenario:\n            hooks_called = True",
+  "        hooks_called = False\n        if not runner.config.dry_run:\n            hooks_called = True")
+M("c09.examples-tags-not-added", "C09", MOD, "        row_tags.extend(example.tags)\n", "")
+M("c09.outline-effective-tags-keep-param", "C09", MOD, "        tags = set([tag for tag in self.tags\n                    if not ScenarioOutlineBuilder.is_parametrized_tag(tag)])\n        if self.parent:\n            # -- INHERIT TAGS: From parent(s), recursively\n            inherited_tags = self.parent.effective_tags\n            tags.update(inherited_tags)",
+  "        tags = set([tag for tag in self.tags\n                    if not ScenarioOutlineBuilder.is_parametrized_tag(tag)])")
+M("c09.rule-ignores-feature-tags", "C09", MOD, "        feature = self\n        rule.parent = feature\n        rule.feature = feature",
+  "        feature = self\n        rule.feature = feature")
